@@ -70,7 +70,12 @@ def ord_merge(p, res):
         elif isinstance(e2, ast.Call) and isinstance(e2.func, ast.Attribute) and e2.func.attr == 'get' and e2.args:
             base, keyexpr = e2.func.value, e2.args[0]
             if len(e2.args) < 2:
-                return ('unsafe', raw, None)
+                # .get(key) without a default yields None for a config that does not mention the section: fine when the update is
+                # guarded by a test of the value (`if data is not None:` / `if data:`), otherwise update(None) raises
+                facts = shape.implied(getattr(e, '_site', e), pm) if getattr(e, '_site', None) is not None else []
+                es = src_of(e)
+                if not any((pol and fs in (es, '%s is not None' % es)) or (not pol and fs == '%s is None' % es) for fs, pol in facts):
+                    return ('unsafe', raw, None)
         if base is None or src_of(keyexpr) != key:
             return (None, raw, None)
         b = src_of(base)
@@ -101,6 +106,10 @@ def ord_merge(p, res):
                 if n.func.attr != 'update' or len(n.args) != 1:
                     res.undecided(src_of(n), 'the merged dict is only filled with update(<layer>)')
                     continue
+                try:
+                    n.args[0]._site = n
+                except AttributeError:
+                    pass
                 seq.append((layer(n.args[0]), n))
             else:
                 # a mutator on something else: is it a parameter / table (or derived from one)?
@@ -161,10 +170,64 @@ def ord_merge(p, res):
         tgt = ipm.get(c)
         field = src_of(tgt.targets[0]) if isinstance(tgt, ast.Assign) else None
         want_syntax = "%s.get('syntax', DEFAULT_SYNTAXES.get(%s, 'html'))" % (ucfg, want_type)
-        if a[0] != want_type:
+        def cv(e):
+            v = p.try_const(init, e)
+            if v is None and isinstance(e, ast.Subscript) and isinstance(e.value, ast.Name):
+                # one entry of a module-level dict display whose other entries are not constants
+                try:
+                    _, disp = p.module_const('config', e.value.id)
+                except (AnalysisError, KeyError, ValueError, TypeError):
+                    disp = None
+                k = p.try_const(init, e.slice)
+                if isinstance(disp, ast.Dict) and k is not None:
+                    for kk, vv in zip(disp.keys, disp.values):
+                        if kk is not None and p.try_const(init.module, kk) == k:
+                            return p.try_const(init.module, vv)
+            return v
+
+        def is_get(e, key):
+            return isinstance(e, ast.Call) and isinstance(e.func, ast.Attribute) and e.func.attr == 'get' and isinstance(e.func.value, ast.Name) \
+                and e.func.value.id == ucfg and e.args and p.try_const(init, e.args[0]) == key and not e.keywords
+
+        def kind_ast(e):
+            if is_get(e, 'type') and len(e.args) == 2 and cv(e.args[1]) == 'markup':
+                return 'type'
+            if is_get(e, 'syntax') and len(e.args) == 2:
+                d = e.args[1]
+                if isinstance(cv(d), str):
+                    return 'syntax-fixed-default'       # the default syntax does not depend on the type
+                if isinstance(d, ast.Call) and isinstance(d.func, ast.Attribute) and d.func.attr == 'get' and src_of(d.func.value) == 'DEFAULT_SYNTAXES' and d.args:
+                    if kind_ast(d.args[0]) == 'type' and len(d.args) == 2 and cv(d.args[1]) == 'html':
+                        return 'syntax'
+                    if isinstance(cv(d.args[0]), str):
+                        return 'syntax-fixed-default'
+            return None
+
+        def kind(t, e=None):
+            if t == want_type:
+                return 'type'
+            if t == want_syntax:
+                return 'syntax'
+            if e is not None and kind_ast(e) is not None:
+                return kind_ast(e)
+            if t.isidentifier() and sum(1 for x in shape.own_nodes(inode) if isinstance(x, ast.Name) and isinstance(x.ctx, ast.Store) and x.id == t) > 1:
+                return 'rebound'         # assigned, then assigned again on some path: the name given by the caller is replaced there
+            if t.isidentifier():
+                return 'opaque'          # a local the expansion cannot see through: result of a helper, an unpacked tuple, a loop variable
+            return 'other'
+        k0, k1 = kind(a[0], shape.expand(c.args[0], idefs)), kind(a[1], shape.expand(c.args[1], idefs))
+        if k0 == 'rebound' or k1 == 'rebound':
+            res.bad(F('ORD-MERGE', init, c, src_of(c), 'type and syntax must be taken from the config as given: `%s` is re-assigned on some path before it is used as a layer key (an unknown syntax name simply has no layers; replacing it applies the layers of another syntax)' % (a[0] if k0 == 'rebound' else a[1])))
+        elif k0 == 'syntax' or (k0 == 'other' and not (".get('type'" in a[0] and ".get('syntax'" not in a[0] and ' if ' not in a[0])) or (a[0] == a[1] and k0 != 'opaque'):
             res.bad(F('ORD-MERGE', init, c, src_of(c), "first argument must be the abbreviation type (%s), is %s" % (want_type, a[0])))
-        elif a[1] != want_syntax:
+        elif k0 != 'type':
+            res.undecided(src_of(c), 'the first argument (%s) is computed elsewhere: not recognised as the abbreviation type' % a[0])
+        elif k1 == 'syntax-fixed-default':
+            res.bad(F('ORD-MERGE', init, c, src_of(c), 'the syntax falls back to one fixed name whatever the abbreviation type is (must be the default syntax of the type: css for stylesheet): %s' % a[1]))
+        elif k1 == 'type' or (k1 == 'other' and not (".get('syntax'" in a[1] and ' if ' not in a[1] and ' in ' not in a[1] and ' or ' not in a[1])):
             res.bad(F('ORD-MERGE', init, c, src_of(c), 'second argument must be the syntax name (user syntax, else the default syntax of the type), is %s' % a[1]))
+        elif k1 != 'syntax':
+            res.undecided(src_of(c), 'the second argument (%s) is computed elsewhere: not recognised as the syntax name' % a[1])
         elif a[3] != ucfg or a[4] != gcfg:
             res.bad(F('ORD-MERGE', init, c, src_of(c), 'the call\'s own config and the global config must be passed as 4th and 5th argument, in this order'))
         elif not isinstance(sec, str) or field is None:
@@ -180,6 +243,10 @@ def ord_merge(p, res):
     stores = {src_of(n.targets[0]): src_of(shape.expand(n.value, idefs)) for n in shape.own_nodes(inode) if isinstance(n, ast.Assign) and len(n.targets) == 1 and src_of(n.targets[0]).startswith('self.')}
     if stores.get('self.type') == want_type and stores.get('self.syntax') == "%s.get('syntax', DEFAULT_SYNTAXES.get(%s, 'html'))" % (ucfg, want_type):
         res.ok('Config.type / Config.syntax are the names the caller gave (unknown names are kept)')
+    elif 'self.syntax' in stores and 'self.type' in stores and (stores['self.type'].isidentifier() or stores['self.syntax'].isidentifier()
+                                                                 or (".get('syntax'" in stores['self.syntax'] and not any(w in stores['self.syntax'] for w in (' if ', ' in ', ' or ')))) \
+            and not any(w in stores['self.type'] + stores['self.syntax'] for w in (' if ', ' in ', ' or ')):
+        res.undecided('self.type = %s ; self.syntax = %s' % (stores.get('self.type'), stores.get('self.syntax')), 'computed elsewhere: not recognised as the names given by the caller')
     elif 'self.syntax' in stores and 'self.type' in stores:
         res.bad(F('ORD-MERGE', init, init.node, 'self.type = %s ; self.syntax = %s' % (stores.get('self.type'), stores.get('self.syntax')),
                   'type and syntax must be taken from the config as given: an unknown syntax name is kept (it simply has no layers), never replaced'))
@@ -496,7 +563,30 @@ def acc_callback(p, res):
             continue
         cb = cbs[0][1]
         arg = pushes[0][1].args[0]
-        if not (isinstance(arg, ast.Name) and arg.id == cbs[0][0]):
+        # a validating pass-through `check(result, ..)`: a project function that returns its first parameter untouched on every
+        # returning path (and raises otherwise) hands the callback's string on unmodified
+        via = None
+        if isinstance(arg, ast.Name) and arg.id != cbs[0][0]:
+            for sym, n in calls:
+                if sym == arg.id and n.args and isinstance(n.args[0], ast.Name) and n.args[0].id == cbs[0][0]:
+                    tgt = p.resolve_call(f, n)
+                    if isinstance(tgt, list) and len(tgt) == 1 and tgt[0].cls is None and tgt[0].params:
+                        g, p0 = tgt[0], tgt[0].params[0]
+                        rets = [x for x in g.body_nodes() if isinstance(x, ast.Return)]
+                        stores = [x for x in g.body_nodes() if isinstance(x, ast.Name) and isinstance(x.ctx, ast.Store) and x.id == p0]
+                        muts = [x for x in g.body_nodes() if isinstance(x, (ast.Assign, ast.AugAssign, ast.Delete))
+                                and any(isinstance(t, (ast.Attribute, ast.Subscript)) for t in (x.targets if isinstance(x, (ast.Assign, ast.Delete)) else [x.target]))]
+                        if rets and not stores and not muts and all(isinstance(r.value, ast.Name) and r.value.id == p0 for r in rets):
+                            via = sym
+                    if via is None:
+                        res.undecided('OutputStream.%s: %s' % (mname, q.rsrc(pushes[0][1])), 'the callback result goes through a helper that is not a plain pass-through')
+            if via is None and not any(sym == arg.id for sym, n in calls):
+                pass
+        if via is not None:
+            calls = [(sym, n) for sym, n in calls if sym != via]
+        elif isinstance(arg, ast.Name) and any(sym == arg.id and n.args and isinstance(n.args[0], ast.Name) and n.args[0].id == cbs[0][0] for sym, n in calls):
+            continue
+        if via is None and not (isinstance(arg, ast.Name) and arg.id == cbs[0][0]):
             res.bad(F('ACC-CALLBACK', f, f.node, q.rsrc(pushes[0][1]), 'the string returned by the %s callback must be passed to _push unmodified' % opt))
             continue
         between = [n for sym, n in calls if sym not in (cbs[0][0], pushes[0][0])]
